@@ -322,6 +322,23 @@ func cmdCheck(args []string) int {
 			if !*noReplay {
 				status = replayWitness(wpath, v.W, prog)
 				nReplayed++
+				// the first failing path need not be one whose failure shows
+				// natively (a cost measured in allocations, a stub with an
+				// arbitrary value): other paths that fail the same assertion
+				// are tried before the counterexample is called unconfirmed
+				for k := 0; status != "reproduced" && k < len(v.Alts) && k < 6; k++ {
+					alt := v.Alts[k]
+					alt.Property, alt.Package = *prop, v.W.Package
+					writeJSON(wpath, alt)
+					st := replayWitness(wpath, alt, prog)
+					nReplayed++
+					if st == "reproduced" {
+						v.W, status = alt, st
+					}
+				}
+				if status != "reproduced" {
+					writeJSON(wpath, v.W)
+				}
 			}
 			v.W.Replay = status
 			writeJSON(wpath, v.W)
